@@ -252,8 +252,12 @@ pub open spec fn is_inlined_callee(lm: Option<LineMapping>, next: Option<&Progua
 {
 """, suffix="\n}\n")
     # ---------------- final flush after the loop ----------------
-    mfl = [m for m in re.finditer(r"if !class\.original\.is_empty\(\) \{", cf.orig)]
-    flush_found = len(mfl) >= 2
+    # the final flush = the first `if .. {` statement after the record loop (structural anchor: any condition text)
+    _lp = cf.loops()
+    _after = _lp[0][3] + 1 if _lp else 0
+    mfl = [m for m in re.finditer(r"(?m)^[ \t]*(if\s[^{;]*\{)", cf.orig) if m.start(1) >= _after][:1]
+    mfl = [re.compile(r"if\s[^{;]*\{").match(cf.orig, m.start(1)) for m in mfl]
+    flush_found = len(mfl) >= 1
     if not flush_found and not whole:
         raise AnchorLost("create_proguard_mapper: final flush (second `if !class.original.is_empty() {`) not found")
     if flush_found:
